@@ -77,28 +77,37 @@ func idsOf(ids []message.ChannelIdentifier) []string {
 var items = []string{"my:chan", "ns.a-b_c:val/ue", "plain", ":lead", "Upper:case", "a:b:c", "", "FML|HS", "ns:", "x:y",
 	"minecraft:brand", "bad ns:x", "\xc3\xa9:x", "legacy:foo", "0:1"}
 
-func genChannelList(r *lib.Rng) []byte {
-	switch r.Intn(12) {
-	case 0:
+func genChannelList(r *lib.Rng, existing int) []byte {
+	join := func(k int, pick func(i int) string) []byte {
+		parts := make([]string, k)
+		for i := range parts {
+			parts[i] = pick(i)
+		}
+		return []byte(strings.Join(parts, "\x00"))
+	}
+	if existing > 0 { // sit on the 1024-channel cap: existing + count = 1023 / 1024 / 1025
+		k := 1024 - existing + r.Pick(-1, 0, 1)
+		if k < 1 {
+			k = 1
+		}
+		return join(k, func(int) string { return items[r.Intn(len(items))] })
+	}
+	switch r.Intn(40) {
+	case 0, 1, 2:
 		return nil
-	case 1: // 32 KiB boundary
+	case 3: // 32 KiB boundary
 		n := r.Pick(32766, 32767, 32768)
 		b := bytes.Repeat([]byte("ab:cd\x00"), n/6+1)
 		return b[:n]
-	case 2: // many channels (count cap)
-		n := r.Pick(1023, 1024, 1025, 600)
-		return []byte(strings.Repeat("\x00", n-1))
+	case 4, 5, 6, 7: // count cap with nothing registered yet
+		n := r.Pick(1023, 1024, 1025)
+		return join(n, func(i int) string { return r.PickS("a", "b:c", "") })
 	}
-	k := r.Range(1, 6)
-	parts := make([]string, k)
-	for i := range parts {
-		parts[i] = items[r.Intn(len(items))]
-	}
-	s := strings.Join(parts, "\x00")
+	b := join(r.Range(1, 6), func(int) string { return items[r.Intn(len(items))] })
 	if r.Chance(1, 6) {
-		s += "\x00"
+		b = append(b, 0)
 	}
-	return []byte(s)
+	return b
 }
 
 func mixCase(r *lib.Rng, s string) string {
@@ -120,7 +129,7 @@ func gen(r *lib.Rng) caseSpec {
 	}
 	mk := func(present int) srvSpec {
 		return srvSpec{present: r.Chance(present, 100), hasConn: r.Chance(92, 100), play: r.Chance(88, 100),
-			writeOK: r.Chance(75, 100), closed: r.Chance(8, 100), phase: r.Pick(0, 0, 0, 0, 1, 2)}
+			writeOK: r.Chance(60, 100), closed: r.Chance(8, 100), phase: r.Pick(0, 0, 0, 0, 1, 2)}
 	}
 	c.connected = mk(93)
 	c.inflight = mk(25)
@@ -136,11 +145,11 @@ func gen(r *lib.Rng) caseSpec {
 	case k < 34:
 		c.kindTag = "register"
 		c.channel = r.PickS("minecraft:register", "REGISTER", "minecraft:register", mixCase(r, "minecraft:register"), "register")
-		c.data = genChannelList(r)
+		c.data = genChannelList(r, c.existing)
 	case k < 46:
 		c.kindTag = "unregister"
 		c.channel = r.PickS("minecraft:unregister", "UNREGISTER", mixCase(r, "minecraft:unregister"))
-		c.data = genChannelList(r)
+		c.data = genChannelList(r, c.existing)
 	case k < 54:
 		c.kindTag = "brand"
 		c.channel = r.PickS("minecraft:brand", "MC|Brand", mixCase(r, "minecraft:brand"))
@@ -172,8 +181,8 @@ func main() {
 	rng := lib.NewRng(f.Seed)
 	out := lib.NewOut("C25", f)
 	out.Imports = "From Verif Require Import Model.PluginMsg.\n"
-	out.Rule = "one HandlePacket call per case; handler uniform over the four; message kind register 34% / unregister 12% / brand 8% / BungeeCord 5% / custom 41% with mixed-case ASCII channel names; register bodies are NUL-separated lists over 15 item shapes (valid, no namespace, leading colon, upper case, two colons, empty, FML|HS, non-ASCII), empty bodies, 32766/32767/32768-byte bodies, 600/1023/1024/1025 channels, existing channel count 0 or 1019..1024; server connection present/has conn/PLAY state/write result/closed/phase, in-flight connection, client phase, registrar membership, subscriber decision (default/allow/deny), config readiness drawn independently; distinct = distinct Coq term; non-trivial = an event fired, a write happened or the message was queued"
-	n := f.Count(640)
+	out.Rule = "one HandlePacket call per case; handler uniform over the four; message kind register 34% / unregister 12% / brand 8% / BungeeCord 5% / custom 41% with mixed-case ASCII channel names; register bodies are NUL-separated lists over 15 item shapes (valid, no namespace, leading colon, upper case, two colons, empty, FML|HS, non-ASCII), empty bodies, 32766/32767/32768-byte bodies, 1023/1024/1025 channels, existing channel count 0 or 1019..1024 with lists sized to land on 1023/1024/1025 in total; server connection present/has conn/PLAY state/write result/closed/phase, in-flight connection, client phase, registrar membership, subscriber decision (default/allow/deny), config readiness drawn independently; distinct = distinct Coq term; non-trivial = an event fired, a write happened or the message was queued"
+	n := f.Count(520)
 	for i := 0; i < n; i++ {
 		r := rng.Fork()
 		c := gen(r)
